@@ -115,7 +115,7 @@ var _ *pb.SharedGroupProposal
 // C20: only the zero group (id = uuid.Nil) touches the address book; an added node is listed under the address carried by the entry.
 //@ func (*storage/raft.RaftGroup).processConfChange
 //@ props C05 C20 C03
-//@ safety C12
+//@ safety UNCLAIMED
 //@ ghost applied int = 0
 //@ at call Node.ApplyConfChange
 //@ set applied = applied + 1
@@ -137,7 +137,7 @@ var _ *pb.SharedGroupProposal
 //   leaderTop  - value of isLeader() at the first test (leaders may send before persisting, raft/doc.go)
 //@ func (*storage/raft.RaftGroup).run
 //@ props C03 C05
-//@ safety C12
+//@ safety UNCLAIMED
 //@ ghost saved int = 0
 //@ ghost sent int = 0
 //@ ghost leaderTests int = 0
@@ -186,7 +186,7 @@ var _ *pb.SharedGroupProposal
 // C03: recovery. Start re-installs the stored snapshot (if any) before the ready loop is launched, and fails if that fails.
 //@ func (*storage/raft.RaftGroup).Start
 //@ props C03 C14
-//@ safety C12
+//@ safety UNCLAIMED
 //@ ghost restored int = 0
 //@ ghost emptySnap int = 0
 //@ ghost started int = 0
@@ -208,7 +208,7 @@ var _ *pb.SharedGroupProposal
 // on this very goroutine (no `go` in between).
 //@ func (*storage/raft.RaftGroup).trySnapshot
 //@ props C03
-//@ safety C12
+//@ safety UNCLAIMED
 //@ ghost gotData int = 0
 //@ ghost snapData []byte = nil
 //@ at call field:storage/raft.RaftGroup.snapshotFn
@@ -268,7 +268,7 @@ var _ *pb.SharedGroupProposal
 
 //@ func storage/raft.isFreshStorage
 //@ props C05
-//@ safety C12
+//@ safety UNCLAIMED
 //@ requires [storage] !isnil(storage)
 //@ ensures [C05 fresh-means-empty] isnil(ret1) && ret0 ==> freshStorage(storage)
 //@ ensures [error-means-not-fresh] !isnil(ret1) ==> !ret0
@@ -277,7 +277,7 @@ var _ *pb.SharedGroupProposal
 // bootstrap (StartNode) happens only behind a positive freshness test of this very storage
 //@ func storage/raft.startRaftNode
 //@ props C05
-//@ safety C12
+//@ safety UNCLAIMED
 //@ requires [storage] !isnil(storage)
 //@ ensures [node] isnil(ret1) ==> !isnil(ret0)
 //@ modifies nothing
@@ -291,7 +291,7 @@ var _ *pb.SharedGroupProposal
 
 //@ func storage/raft.NewRaftGroup
 //@ props C05 C14
-//@ safety C12
+//@ safety UNCLAIMED
 //@ requires [args] transport != nil && !isnil(storage)
 //@ ensures [group] isnil(ret1) ==> ret0 != nil && fresh(ret0) && ret0.transport == transport && ret0.wal == storage && ret0.id == id
 //@ ensures [group-raft] isnil(ret1) ==> !isnil(ret0.raft)
@@ -309,7 +309,7 @@ var _ *pb.SharedGroupProposal
 // the shared zero group registers its three callbacks with the raft group
 //@ func storage/raft.NewSharedGroup
 //@ props C14
-//@ safety C12
+//@ safety UNCLAIMED
 //@ requires [group] group != nil
 //@ ensures [registered] isnil(ret1) ==> ret0 != nil && fresh(ret0) && ret0.group == group && group.processFn != nil && group.processSnapshotFn != nil && group.snapshotFn != nil
 //@ ensures [untouched] group.transport == old(group.transport) && group.raft == old(group.raft) && group.wal == old(group.wal) && group.ctx == old(group.ctx) && group.log == old(group.log)
@@ -333,7 +333,7 @@ var _ *pb.SharedGroupProposal
 
 //@ func (*storage/raft.sharedGroup).process
 //@ props C14
-//@ safety C12
+//@ safety UNCLAIMED
 //@ ghost delivered int = 0
 //@ ghost decoded int = 0
 //@ at call proto.Unmarshal
@@ -352,7 +352,7 @@ var _ *pb.SharedGroupProposal
 
 //@ func (*storage/raft.sharedGroup).processSnapshot
 //@ props C14
-//@ safety C12
+//@ safety UNCLAIMED
 //@ ghost restored int = 0
 //@ at call field:storage/raft.sharedGroupProxy.processSnapshotFn
 //@ set restored = restored + 1
@@ -367,7 +367,7 @@ var _ *pb.SharedGroupProposal
 
 //@ func (*storage/raft.RaftGroup).ProposeJoin
 //@ props C20
-//@ safety C12
+//@ safety UNCLAIMED
 //@ at call Node.ProposeConfChange
 //@ requires [C20 join-carries-address] $arg2.Type == 0 && $arg2.NodeID == nodeId && string($arg2.Context) == address
 //@ end
@@ -376,7 +376,7 @@ var _ *pb.SharedGroupProposal
 
 //@ func (*storage/raft.RaftGroup).ProposeLeave
 //@ props C20
-//@ safety C12
+//@ safety UNCLAIMED
 //@ at call Node.ProposeConfChange
 //@ requires [C20 leave-names-node] $arg2.Type == 1 && $arg2.NodeID == nodeId
 //@ end
@@ -386,7 +386,7 @@ var _ *pb.SharedGroupProposal
 // the snapshot of the zero group is what a restarted or lagging member restores from: it has to cover the address book
 //@ func (*storage/raft.sharedGroup).snapshot
 //@ props C20 C14
-//@ safety C12
+//@ safety UNCLAIMED
 //@ ghost readBook int = 0
 //@ at call Conn).Nodes
 //@ set readBook = 1
